@@ -1,4 +1,4 @@
-HOOK_COMMITS = ["1f23ce1", "19a6366", "2f68a08", "696cad2", "6d64dfa", "02a7a17", "ec44b21", "4f0f0e1"]
+HOOK_COMMITS = ["1f23ce1", "19a6366", "2f68a08", "696cad2", "6d64dfa", "02a7a17", "ec44b21", "4f0f0e1", "611fd41"]
 NOTES = ("Solver-based checking of the real code: Kani/CBMC harnesses over roto's Rust (engine K), translation validation of the "
          "emitted cranelift IR with symbolic arguments in z3 (engine T), symbolic interpretation of MIR slices of the LIR evaluator "
          "(engine M). See DESIGN.md, section 10 for the as-built record. Exit 2 = inconclusive (timeout, OOM, vacuous harness, "
@@ -92,11 +92,12 @@ claim("C17", MC,
       "StringLines::get is a recorded known finding.",
       "Kani/CBMC differential checking of string views against byte-loop references", "K", "DESIGN.md 5/C17")
 claim("C20", TV,
-      "Engine M: for every straight-line scalar program of the corpus, the LIR the real lowering produced is run through the MIR of the evaluator's "
-      "instruction arms (symbolic payloads) and z3 decides that, wherever the evaluator does not stop loudly, its value equals the emitted CLIF's value, in both "
-      "overflow-check profiles; trapping inputs of the compiled code must be loud stops. Kani: the evaluator's checked memory model.",
-      "Per-instruction agreement for Assign/Add/Sub/Mul/Div/Mod/FDiv/IntCmp/FloatCmp/Not/Negate; Jump/Switch/Call/Return plumbing, CallRuntime, memory "
-      "instructions through eval, and host-call-sequence equality are outside.",
+      "Engine M: for every scalar program of the corpus without calls (straight-line, branching and looping), the LIR the real lowering produced is run "
+      "path-wise through the MIR of the evaluator's instruction arms (symbolic payloads) and z3 decides that, wherever the evaluator does not stop loudly, "
+      "its value equals the emitted CLIF's value on every jointly feasible path pair, in both overflow-check profiles; trapping inputs of the compiled "
+      "code must be loud stops. Kani: the evaluator's checked memory model.",
+      "Agreement for Assign/Add/Sub/Mul/Div/Mod/FDiv/IntCmp/FloatCmp/Not/Negate/Jump/Switch (switch_on through its MIR, the branch-table lookup modelled); "
+      "Call/Return frames, CallRuntime, memory instructions through eval, and host-call-sequence equality are outside.",
       "symbolic interpretation of rustc MIR slices of lir::eval::eval compared in z3 with the CLIF encoding; Kani on eval::Memory", "M+K", "DESIGN.md 5/C20, 10.5")
 
 NA["C04"] = "signature gate compares a compile-time Rust type with a Roto type through TypeId-keyed hash maps; no value-level kernel CBMC can execute (probe: 30 min without leaving symex); only enumeration of instantiations would remain"
